@@ -82,6 +82,11 @@ class C13(Prop):
             first = [(bad, True)] + [(n, r.random() < 0.7) for n in NAMES if n != bad and r.random() < 0.5]
             chs = [{"pathset": wp(first)}, dict({"pathset": wp(rand_ps())} if r.random() < 0.7 else {"watcher": r.choice(["poll", "native", "poll2"])}, on_error=0)]
             cases.append({"changes": chs, "fail_watch": [bad], "fail_unwatch": [], "det": False})
+        # more failing registrations in one apply pass than the error queue has room for: each is still reported (the worker waits for room)
+        for i in range(6 if tier == "quick" else 40):
+            ps = [(n, r.random() < 0.7) for n in NAMES]
+            chs = [{"pathset": wp(ps)}] + ([{"pathset": wp([(n, not rec) for n, rec in ps])}] if i % 2 else [])
+            cases.append({"changes": chs, "fail_watch": list(NAMES) if i % 3 else list(NAMES[:2]), "fail_unwatch": [], "det": True, "errors_cap": r.choice([1, 1, 2])})
         # through a whole Watchexec instance: changes issued from within the instance's own error handler (when a failing watch() is
         # reported) and action handler (when an urgent event is handled), including a handler replacing itself; afterwards another
         # failing attempt and another event must still be reported / handled, and the registration must converge
